@@ -663,6 +663,14 @@ Proof. induction 1 as [|x y' a b Hxy _ IH]; intros j Hj; cbn in *; [lia|]. destr
 Lemma tile_forall2 {A B} (Q : A -> B -> Prop) a b : Forall2 Q a b -> forall N, Forall2 Q (tile N a) (tile N b).
 Proof. intros Hab. unfold tile. induction N as [|N IH]; cbn; [constructor|]. apply Forall2_app; assumption. Qed.
 
+Lemma tile_nth {A} (l : list A) (dflt : A) : forall N t i, (t < N)%nat -> (i < length l)%nat -> nth (t * length l + i) (tile N l) dflt = nth i l dflt.
+Proof.
+  unfold tile. induction N as [|N IH]; intros t i Ht Hi; [lia|]. cbn [repeat concat].
+  destruct t as [|t]; [cbn [Nat.mul Nat.add]; now rewrite app_nth1|].
+  rewrite app_nth2 by (cbn; lia). replace (S t * length l + i - length l)%nat with (t * length l + i)%nat by (cbn; lia).
+  apply IH; lia.
+Qed.
+
 Section Final.
   Variable f : nat -> list R -> list R -> list R.
   Variable h : nat -> list R -> list R -> list R.
@@ -797,5 +805,26 @@ Section Final.
     { rewrite Forall_forall in Hμ. apply Hμ. apply nth_In. rewrite Lμ. exact Hi. }
     destruct (ocp_write1_spec (nth i Dl None) (nth i Du None) (nth i (econstr (out_u o)) 0) (nth i y 0) (nth i μ 0) Hm) as (S1 & S2 & _).
     split; [exact S1|exact S2].
+  Qed.
+
+  (* the box part stage by stage: input i of stage t of the returned sequence lies between Ulb_i and Uub_i *)
+  Corollary panoc_ocp_converged_inputs_in_U fuel o :
+    wf_fns f h hN c cN d -> wf_jac jA jB gqr gqN jc jcN d -> length x0 = nx ->
+    length Ulb = nu -> length Uub = nu -> Forall2 box_ne Ulb Uub ->
+    length u_in = (NN * nu)%nat ->
+    length Dlb = nc -> length Dub = nc -> length DNlb = ncN -> length DNub = ncN ->
+    length y = (NN * nc + ncN)%nat -> length μ = (NN * nc + ncN)%nat -> Forall (fun m => 0 < m) μ ->
+    0 < p_Lgamma P -> 0 < p_Lmin P -> 0 < p_Lmax P ->
+    (forall j u x qr mask q, length (gn_step j u x qr mask q) = (NN * nu)%nat) ->
+    (forall ds q γ J, length (snd (fst (lb_apply ds q γ J))) = (NN * nu)%nat) ->
+    run fuel = Done o -> out_status o = StConverged ->
+    forall t i, (t < NN)%nat -> (i < nu)%nat -> in_box (nth i Ulb None) (nth i Uub None) (nth (t * nu + i) (out_u o) 0).
+  Proof.
+    intros Hfn Hjac Lx0 HUl HUu Hne Lu0 LDl LDu LDNl LDNu Ly Lμ Hμ HLγ HLmin HLmax Hgn Hlb Hr Hst t i Ht Hi.
+    destruct (panoc_ocp_converged_is_stationary fuel o Hfn Hjac Lx0 HUl HUu Hne Lu0 LDl LDu LDNl LDNu Ly Lμ Hμ HLγ HLmin HLmax Hgn Hlb Hr Hst)
+      as (_ & _ & _ & _ & _ & Hbox & _).
+    destruct (Hbox (t * nu + i)%nat ltac:(nia)) as [Hin _].
+    rewrite <- HUl in Hin at 1. rewrite (tile_nth Ulb None NN t i Ht ltac:(lia)) in Hin.
+    rewrite <- HUu in Hin at 1. rewrite (tile_nth Uub None NN t i Ht ltac:(lia)) in Hin. exact Hin.
   Qed.
 End Final.
